@@ -1082,6 +1082,7 @@ type When struct {
 	ref        string
 	extensions []*Extension
 	and        *When
+	ofParent   bool
 }
 
 func (y *When) Expression() string {
@@ -1105,8 +1106,21 @@ func (y *When) andAlso(other *When) *When {
 	return &c
 }
 
+// OfParent is true for a condition a node has from the uses or augment that brought it. Such a
+// condition is about the node holding the uses or the target of the augment (RFC7950 Sec 7.21.5),
+// which is the parent of the node carrying it.
+func (y *When) OfParent() bool {
+	return y.ofParent
+}
+
 // whenBoth is the condition of a node that has a condition of its own, or not, and inherits one
+// from a uses or an augment
 func whenBoth(own *When, inherited *When) *When {
+	if !inherited.ofParent {
+		c := *inherited
+		c.ofParent = true
+		inherited = &c
+	}
 	if own == nil {
 		return inherited
 	}
